@@ -589,6 +589,7 @@ class Ctx:
                     ('PYTHONHASHSEED=7', {'PYTHONHASHSEED': '7'}, [], None),
                     ('python -O', {}, ['-O'], None),
                     ('python -W error', {}, ['-W', 'error'], None),
+                    ('python -bb (comparing str with bytes is an error)', {}, ['-bb'], None),
                     ('PYTHONINTMAXSTRDIGITS=640', {'PYTHONINTMAXSTRDIGITS': '640'}, [], None),
                     ('os.linesep = CRLF before the library is imported (another platform)', {'VERIF_PROBE_LINESEP': 'crlf'}, [], None),
                     ('debug logging turned on for every logger', {'VERIF_PROBE_LOGGING': 'debug'}, [], None),
